@@ -1,7 +1,7 @@
 (* Props/C01.v -- TextGrid save/open round trip: the text layer.
    Property theorems only; proofs are in IO/CodecProofs.v. *)
 From Coq Require Import String.
-From PraatIO Require Import IO.IoModel IO.CodecProofs IO.ShortFileProofs IO.ShortChunkProofs IO.LongFileProofs IO.JsonDict.
+From PraatIO Require Import IO.IoModel IO.CodecProofs IO.ShortFileProofs IO.ShortChunkProofs IO.LongFileProofs IO.LongChunkProofs IO.JsonDict.
 Open Scope Z_scope.
 
 (* un-doubling the doubled form is the identity, for every label and name *)
@@ -110,6 +110,23 @@ Theorem C01_long_file_roundtrip tab g :
 Proof. exact (parse_long_printed tab g). Qed.
 Print Assumptions C01_long_file_roundtrip.
 
+(* ... and for the long form, too, the side condition is PROVED whenever names are single-line, no name or
+   label contains one of the words item, intervals, points, IntervalTier, and numbers are digits/dots with
+   an optional exponent: re.split at `item [` finds the header and the tier blocks, re.split at
+   `intervals [` / `points [` inside a block finds its head and its entries (the word "intervals" in
+   "intervals: size" is not followed by a bracket), and a point tier's block does not contain
+   class = "IntervalTier" *)
+Theorem C01_long_chunking tab g : fileL_ok tab g = true -> lfile_ok tab g = true.
+Proof. exact (lfile_ok_free tab g). Qed.
+Print Assumptions C01_long_chunking.
+
+Theorem C01_long_file_roundtrip_unconditional tab g :
+  fileL_ok tab g = true ->
+  forallb (fun c => negb (c =? 13)%N) (print_long tab g) = true ->
+  parse_long true (print_long tab g) = Ok (rd_tg_long tab g).
+Proof. exact (parse_long_printed_free tab g). Qed.
+Print Assumptions C01_long_file_roundtrip_unconditional.
+
 (* hence both text forms of one textgrid with trimmed names are read back as the same data *)
 Theorem C01_long_short_same_data tab g :
   forallb (fun t => strippedb (d_name t)) (dg_tiers g) = true ->
@@ -164,6 +181,13 @@ Example C01_short_file_example :
   dg_tiers g <> [] /\ chunk_ok tab g = true /\ forallb (fun c => negb (c =? 13)%N) (print_short tab g) = true
   /\ forallb (tier_ok tab) (dg_tiers g) = true /\ parse_short (print_short tab g) = Ok (rd_tg tab g).
 Proof. vm_compute. repeat split; try reflexivity. discriminate. Qed.
+
+Example C01_long_free_example :
+  let tab := [(0, mkNum true (T "0") (T "0.0")); (1, mkNum false (T "1") (T "1.5")); (2, mkNum false (T "2") (T "2.25e-05"))]%Z in
+  let g := mkDTG 0 2 [mkDT true (T "a ""b"" xmin = 3") 0 2 [DI 0 1 [34%N; 34%N; 10%N; 61%N; 55%N]; DI 1 2 (T "xmax = 7 ")];
+                      mkDT false (T "p") 0 2 [DP 1 [34%N]]]%Z in
+  fileL_ok tab g = true.
+Proof. vm_compute. reflexivity. Qed.
 
 Example C01_long_file_example :
   let tab := [(0, mkNum true (T "0") (T "0.0")); (1, mkNum false (T "1") (T "1.5")); (2, mkNum false (T "2") (T "2.25e-05"))]%Z in
